@@ -178,8 +178,12 @@ def main(argv=None):
         ev["coverage"]["states"] = 1 if jobs else 0
     if ev["coverage"]["transitions"] < 1:
         ev["coverage"]["transitions"] = 1 if jobs else 0
-    os.makedirs(os.path.join(VERIF, "evidence"), exist_ok=True)
-    with open(os.path.join(VERIF, "evidence", prop + ".json"), "w") as f:
+    from . import REPO
+
+    # evidence describes runs against /repo only; a run against another checkout (VERIF_REPO) leaves it alone
+    evdir = os.path.join(VERIF, "evidence") if REPO == "/repo" else os.path.join("/tmp", "verif-evidence-other-repo")
+    os.makedirs(evdir, exist_ok=True)
+    with open(os.path.join(evdir, prop + ".json"), "w") as f:
         json.dump(ev, f, indent=1, default=str)
 
     print("%s tier=%s jobs=%d confirmed=%d refuted=%d inconclusive=%d errors=%d paths=%d z3-queries=%d z3-time=%.1fs wall=%.1fs" % (prop, tier, len(jobs), counts["CONFIRMED"], counts["REFUTED"], counts["UNKNOWN"] + counts["VACUOUS"], counts["ERROR"], paths, queries, solver_s, wall))
